@@ -60,6 +60,14 @@ int main()
             auto* b = w.lex.make_block(*w.greg); b->new_handler(*w.ids[0], *w.types[0]);
             out = probe_all(b->handlers()) + " body: " + probe_all(b->body());
          }
+         else if (c == "unattached-parameter") {
+            // a parameter entered directly into the declarative region of a parameter list (the member-level route that
+            // add_member itself uses): its link to the list was never set; every accessor answers or refuses
+            auto* m = w.lex.make_mapping(*w.greg, Mapping_level{ 1 });
+            auto& scope = m->inputs.parms.scope;
+            impl::Parameter* raw = scope.push_back(*w.ids[0], *w.types[0], ipr::Decl_position{ scope.size() });
+            out = "made " + guarded([&] { return dump(as_iface(*raw)); });
+         }
          else out = "unknown-case";
       }
       catch (const std::logic_error&) { out += " E"; }
